@@ -62,12 +62,15 @@ CATALOGUE = [
     ("W", "power", 1.0, 0.0), ("kW", "power", 1e3, 0.0), ("W/m2", "irr", 1.0, 0.0), ("W m-2", "irr", 1.0, 0.0),
     ("MJ/m2/d", "irr", 1e6 / DAY, 0.0), ("J/m2", "edens", 1.0, 0.0), ("m2 s-2", "geopot", 1.0, 0.0), ("J/kg", "geopot", 1.0, 0.0),
     ("Hz", "freq", 1.0, 0.0), ("1/s", "freq", 1.0, 0.0), ("s-1", "freq", 1.0, 0.0), ("1/d", "freq", 1.0 / DAY, 0.0),
+    # blank means multiplication in CF/UDUNITS spellings: 'ms-1' (per millisecond) is not 'm s-1' (metre per second)
+    ("ms-1", "freq", 1e3, 0.0), ("mm-1", "wavenum", 1e3, 0.0), ("m m-1", "none", 1.0, 0.0),
     ("m/s2", "acc", 1.0, 0.0),
     # substance
     ("mol", "subst", 1.0, 0.0), ("mmol", "subst", 1e-3, 0.0), ("mol/m3", "conc", 1.0, 0.0), ("mmol/L", "conc", 1.0, 0.0),
     ("umol/L", "conc", 1e-3, 0.0),
 ]
 _D["edens2"] = (-2, 1, 0, 0, 0)
+_D["wavenum"] = (-1, 0, 0, 0, 0)
 TABLE = {u: (_D[d], f, o) for u, d, f, o in CATALOGUE}
 NAMES = [u for u, *_ in CATALOGUE]
 
@@ -117,7 +120,7 @@ class C17(Property):
         "'equivalent' is decided with tolerance 1e-9 by the oracle; pairs within finam's np.isclose slack (2e-5) do not occur in the catalogue and would be counted unconstrained",
     )
     cases = {"quick": 48, "thorough": 1000}
-    min_nontrivial = {"quick": 3000, "thorough": 9900}
+    min_nontrivial = {"quick": 3000, "thorough": len(NAMES) * (len(NAMES) - 1)}
     jobs = {"quick": 4, "thorough": 16}
     exhaustive = {"quick": False, "thorough": True}
 
